@@ -323,44 +323,69 @@ class Bound(V):
 
 
 class Aff(V):
-    """Affine form  coeff * x + const  in one variable with exact rational coefficients.
-    kind: 'num' (a number), 'dt' (a date-time as seconds since 1970-01-01), 'td' (a duration in seconds)."""
+    """Linear form  sum(coeff_v * v) + const  with exact rational coefficients.
+    kind: 'num' (a number), 'int' (an integer), 'dt' (a date-time as seconds since 1970-01-01), 'td' (seconds)."""
 
     def __init__(self, coeff, const, kind='num', var='x'):
         from fractions import Fraction
-        self.coeff = Fraction(coeff)
+        if isinstance(coeff, dict):
+            self.coeffs = dict((v, Fraction(c)) for v, c in coeff.items() if c != 0)
+        else:
+            self.coeffs = {var: Fraction(coeff)} if coeff != 0 else {}
         self.const = Fraction(const)
         self.kind = kind
-        self.var = var
 
     @property
     def tag(self):
         return {'num': 'float', 'int': 'int', 'dt': 'datetime', 'td': 'timedelta'}[self.kind]
 
+    @property
+    def coeff(self):
+        if not self.coeffs:
+            return 0
+        if len(self.coeffs) == 1:
+            return list(self.coeffs.values())[0]
+        raise Unmodelled('affine form in several variables where one is expected')
+
+    @property
+    def var(self):
+        return sorted(self.coeffs)[0] if self.coeffs else 'x'
+
     def is_const(self):
-        return self.coeff == 0
+        return not self.coeffs
 
     def key(self):
-        return ('aff', self.kind, self.coeff, self.const, self.var)
+        return ('aff', self.kind, tuple(sorted(self.coeffs.items())), self.const)
 
     def __repr__(self):
-        return '%s[%s*%s%+g]' % (self.kind, self.coeff, self.var, float(self.const)) if self.coeff else '%s[%s]' % (self.kind, self.const)
+        terms = ''.join('%+g*%s' % (float(c), v) for v, c in sorted(self.coeffs.items()))
+        return '%s[%s%+g]' % (self.kind, terms, float(self.const)) if self.coeffs else '%s[%s]' % (self.kind, self.const)
 
 
 class AffCmp(V):
-    """Subject of a decision:  coeff*x + const  <op>  0."""
+    """Subject of a decision:  sum(coeff_v * v) + const  <op>  0."""
     tag = 'bool'
 
     def __init__(self, op, coeff, const):
         self.op = op
-        self.coeff = coeff
+        self.coeffs = dict(coeff) if isinstance(coeff, dict) else {'x': coeff}
         self.const = const
 
+    @property
+    def coeff(self):
+        if len(self.coeffs) == 1:
+            return list(self.coeffs.values())[0]
+        raise Unmodelled('comparison in several variables where one is expected')
+
+    @property
+    def var(self):
+        return sorted(self.coeffs)[0]
+
     def key(self):
-        return ('affcmp', self.op, self.coeff, self.const)
+        return ('affcmp', self.op, tuple(sorted(self.coeffs.items())), self.const)
 
     def __repr__(self):
-        return '%s*x%+g %s 0' % (self.coeff, float(self.const), self.op)
+        return '%s%+g %s 0' % (''.join('%+g*%s' % (float(c), v) for v, c in sorted(self.coeffs.items())), float(self.const), self.op)
 
 
 class RegexV(V):
